@@ -619,8 +619,8 @@ GRIDS = {
 
 # which grids each property runs
 FOR_PROPERTY = {
-    "C01": ["respond", "pricing"], "C05": ["prefix"], "C13": ["prefix", "genesis"], "C02": ["respond", "lifecycle", "pricing"], "C04": ["respond"], "C08": ["respond", "module"], "C14": ["deposit", "genesis"], "C03": ["deposit", "genesis"],
-    "C09": ["lifecycle"], "C10": ["lifecycle"], "C11": ["lifecycle", "respond"], "C12": ["module", "respond"],
-    "C16": ["lifecycle", "respond", "longrun"], "C06": ["respond", "pricing", "module"], "C18": ["respond", "query", "longrun"], "C20": ["lifecycle", "boundary", "pricing"], "C19": ["genesis"],
+    "C01": ["respond", "pricing"], "C05": ["prefix"], "C13": ["prefix", "genesis"], "C02": ["respond", "lifecycle", "pricing", "genesis"], "C04": ["respond", "genesis"], "C08": ["respond", "module"], "C14": ["deposit", "genesis"], "C03": ["deposit", "genesis"],
+    "C09": ["lifecycle", "genesis"], "C10": ["lifecycle"], "C11": ["lifecycle", "respond", "genesis"], "C12": ["module", "respond", "genesis"],
+    "C16": ["lifecycle", "respond", "longrun", "genesis"], "C06": ["respond", "pricing", "module"], "C18": ["respond", "query", "longrun"], "C20": ["lifecycle", "boundary", "pricing"], "C19": ["genesis"],
     "C17": ["query", "longrun"], "C15": ["query", "genesis"], "C07": ["pricing", "respond"],
 }
